@@ -222,6 +222,10 @@ def run(ctx):
     open(script, "w").write(REAL % os.path.dirname(os.path.dirname(os.path.dirname(os.path.abspath(__file__)))))
     real = ctx.pick([(0, dict(p=2, mc=1, mt=1)), (2, dict(p=2, mc=0, mt=0)), (len(shapes) - 2, dict(p=2, mc=1, mt=1))],
                     [(si, c) for si in range(len(shapes)) for c in (dict(p=2, mc=1, mt=1), dict(p=2, mc=0, mt=0), dict(p=3, mc=2, mt=2), dict(p=1, mc=1, mt=0))])
+    # real processes only (each spawned interpreter has its own string-hash salt; the virtual layer has one): an environment whose
+    # feature names are not ASCII.  Compared between in-process and real workers only - whether such names are accepted is not C01's subject
+    shapes = shapes + [dict(tr=[(0, 0, 2), (1, 0, 2), (1, 1, 2)], ch=[0, 0], fail=[], nonascii=[1], n_int=12)]      # evaluator 2 records the context
+    real = real + [(len(shapes) - 1, dict(p=2, mc=1, mt=1))]
     for si, cfg in real:
         shape = shapes[si]
         ref = explib.result_digest(explib.run_inprocess(explib.build(shape), seed=shape.get("seed", 1)))
